@@ -162,7 +162,7 @@ func C07(tier string) {
 	r.NotExhaustive()
 	small := append(smallSeeds(), corruptSeeds()...)
 	repo := repoImages()
-	r.Rule(fmt.Sprintf("seeds: %d small synthetic files (one per format variant and one per parser error branch, empty input) and the %d repository images; for every seed: EVERY end position 0..len (every position up to 8 KiB and the last 64 for larger files) x 4 endings {EOF, data+EOF, I/O error, data+I/O error} x delivery {all at once, 1 byte per call; thorough adds 2,3,7,4095,4097} x 4 loaders x drains {io.ReadAll, 1-byte reads, 4097-byte reads}; every sequence of up to 4 (thorough 5) operations {Load(loader, file), drain(any earlier stream)} over five small files in one process; sources of other dynamic types (bytes.Reader, strings.Reader, bufio.Reader, bytes.Buffer, os.File) handed over at offset 0 and positioned 1/16/5000 bytes into their data; thorough adds a depth-first exploration of all reader answer sequences (short reads, data+EOF, errors) with <= 2 deviations on the small seeds; distinct = (seed, loader, end position, ending) combinations", len(small), len(repo)))
+	r.Rule(fmt.Sprintf("seeds: %d small synthetic files (one per format variant and one per parser error branch, empty input) and the %d repository images; for every seed: EVERY end position 0..len (every position up to 8 KiB and the last 64 for larger files) x 4 endings {EOF, data+EOF, I/O error, data+I/O error} x delivery {all at once, 1 byte per call; thorough adds 2,3,7,4095,4097} x 4 loaders x drains {io.ReadAll, 1-byte reads, 4097-byte reads}; every sequence of up to 4 (thorough 5) operations {Load(loader, file), drain(any earlier stream)} over five small files in one process; every 32-bit window of each seed (extended by 9,000 payload bytes) set to 16 boundary values in both byte orders; sources of other dynamic types (bytes.Reader, strings.Reader, bufio.Reader, bytes.Buffer, os.File) handed over at offset 0 and positioned 1/16/5000 bytes into their data; thorough adds a depth-first exploration of all reader answer sequences (short reads, data+EOF, errors) with <= 2 deviations on the small seeds; distinct = (seed, loader, end position, ending) combinations", len(small), len(repo)))
 	r.Assume("truncation at t and an I/O error at position p are alternative endings of the same source (bytes beyond the end are never observed), so positions x endings is the full matrix of the quantifier")
 
 	chunks := []int{0, 1}
@@ -315,6 +315,43 @@ func C07(tier string) {
 	})
 	r.Eval(capEvalsA.Load())
 	r.Set("source_type_executions", capEvalsA.Load())
+
+	// hostile length fields on inputs larger than the read-ahead: every 32-bit
+	// window (both byte orders) of each small seed set to each boundary value,
+	// with 9,000 bytes of payload appended so that part of the input is still in
+	// the source when Load returns
+	{
+		tailB := make([]byte, 9000)
+		lcg(tailB, 7)
+		vals := []uint32{0, 1, 2, 3, 4, 8, 9, 10, 12, 255, 4096, 65535, 1 << 24, 1<<31 - 1, 1 << 31, 1<<32 - 1}
+		base := smallSeeds()
+		r.Par(ev.Workers(), func(shard, n int) {
+			var evals int64
+			for si := range base {
+				seed := base[si]
+				data := append(append([]byte(nil), seed.Data...), tailB...)
+				for at := shard; at+4 <= len(seed.Data); at += n {
+					for _, v := range vals {
+						for _, le := range []bool{false, true} {
+							b := append([]byte(nil), data...)
+							if le {
+								b[at], b[at+1], b[at+2], b[at+3] = byte(v), byte(v>>8), byte(v>>16), byte(v>>24)
+							} else {
+								b[at], b[at+1], b[at+2], b[at+3] = byte(v>>24), byte(v>>16), byte(v>>8), byte(v)
+							}
+							c := Case{fmt.Sprintf("%s + 9000 bytes, 32-bit field at %d = %#x (little-endian %v)", seed.Name, at, v, le), b, seed.Info}
+							for _, l := range []*loaderFn{loaderFor(seed.Info.Format), &loaders[3]} {
+								c07One(r, &c, l, len(b), 0, 0, (at+int(v))%3)
+								evals++
+							}
+						}
+					}
+				}
+			}
+			r.Eval(evals)
+			r.DistinctN(evals)
+		})
+	}
 
 	// operation sequences: a stream may be drained after any number of later Loads
 	sd := 4
